@@ -39,6 +39,7 @@ type Bucket struct {
 	mutex           *sync.Mutex    // mutex for synchronized access to Bucket
 	postMutex       *sync.Mutex    // held from a write's transaction until its event is posted, so feeds get events in CAS order
 	storeClosed     *atomic.Bool   // set once the underlying store has been shut down (shared by all handles)
+	storeDeleted    *atomic.Bool   // set once the bucket has been deleted through any of its handles (shared by all handles)
 	sqliteDB        *sql.DB        // SQLite database handle (do not access; call db() instead)
 	expManager      *expiryManager // expiration manager for bucket
 	serial          uint32         // Serial number for logging
@@ -173,6 +174,7 @@ func OpenBucket(urlStr string, bucketName string, mode OpenMode) (b *Bucket, err
 		mutex:           &sync.Mutex{},
 		postMutex:       &sync.Mutex{},
 		storeClosed:     &atomic.Bool{},
+		storeDeleted:    &atomic.Bool{},
 		inMemory:        inMemory,
 		serial:          serial,
 	}
@@ -402,6 +404,7 @@ func (b *Bucket) copy() *Bucket {
 		mutex:           b.mutex,
 		postMutex:       b.postMutex,
 		storeClosed:     b.storeClosed,
+		storeDeleted:    b.storeDeleted,
 		sqliteDB:        b.sqliteDB,
 		expManager:      b.expManager,
 		serial:          b.serial,
